@@ -10,7 +10,7 @@
 #define T_POLICY P_LFUDA
 #define T_HAS_AGE 1
 using C = cappuccino::lfuda_cache<uint64_t, VAL_T, cappuccino::thread_safe::TS>;
-#define DECL_C(c) C c(HCAP, std::chrono::milliseconds{cfg_tick}, T_RATIO4 / 4.0f)
+#define DECL_C(c) C c(HCAP, std::chrono::milliseconds{cfg_tick}, T_RATIO4 / 4.0f, cfg_mlf)
 #else
 #include <cappuccino/lfu_cache.hpp>
 #define CL m_open_list
@@ -18,7 +18,7 @@ using C = cappuccino::lfuda_cache<uint64_t, VAL_T, cappuccino::thread_safe::TS>;
 #define T_POLICY P_LFU
 #define T_HAS_AGE 0
 using C = cappuccino::lfu_cache<uint64_t, VAL_T, cappuccino::thread_safe::TS>;
-#define DECL_C(c) C c(HCAP)
+#define DECL_C(c) C c(HCAP, cfg_mlf)
 #endif
 #define T_TTL 0
 #define T_PEEK 1
